@@ -147,6 +147,15 @@ async def key_chains(base, rnd):
                 nk = await rr.add_key(password=pw, shared=shared, settings={'encryption': {'kdf': dict(kdf)}})
             await rr.close()
             keys.append((f'k{depth}{shared}', pw, nk.new_key))
+    # a new key with the SAME password as the key the object was unlocked with (and the same KDF settings): the object has derived a
+    # user key from that password already; the new key has its own salt, and a fresh object must open it
+    for shared in (False, True):
+        rr = Repository(Local(d / 'repo'), concurrent=2, quiet=True, cache_directory=None)
+        with lib.quiet():
+            await rr.unlock(password=b'owner', key=rr.serialize(res.key))
+            nk = await rr.add_key(password=b'owner', shared=shared, settings={'encryption': {'kdf': dict(FAST)}})
+        await rr.close()
+        keys.append((f'same_password_{shared}', b'owner', nk.new_key))
     for name, pw, key in keys:
         for other_name, other_pw, _ in keys:
             n += 1
